@@ -131,6 +131,17 @@ class C04(Property):
                 a = simple(lo, lo + 1, 1)
                 g = rng.choice([half - 1, half, half + 1])
                 b = simple(min(lo + 1 + g, n - 1), min(lo + 2 + g, n), 1)
+            # multi-part operands whose nearest parts are closer over the origin than along the line
+            if circular and n >= 20 and rng.random() < 0.35:
+                j = rng.randrange(0, 3)
+                s1 = rng.choice([1, -1])
+                pa = [[j, j + 2, s1], [n // 3, n // 3 + 2, s1]]
+                pb = [[n // 2, n // 2 + 2, 1], [n - 4 - j, n - 2 - j, 1]]
+                if s1 == -1:
+                    pa.reverse()
+                a, b = compound(pa), compound(pb)
+                if rng.random() < 0.5:
+                    a, b = b, a
             return {"f": f, "a": a, "b": b, "wrap": w}
         if f == "connect":
             k = rng.choice([1, 2, 2, 3, 3, 4, 6])
@@ -220,7 +231,16 @@ class C04(Property):
                 return {"v": bool(SubRegion(a, tool="t") < SubRegion(b, tool="t"))}
             if f == "connect":
                 ls = [common.make_location(x) for x in case["ls"]]
-                return {"v": common.location_json(loc.connect_locations(ls, case["wrap"] or None))}
+                res = loc.connect_locations(ls, case["wrap"] or None)
+                out = {"v": common.location_json(res)}
+                # metamorphic part of the property: argument order and applying the operation twice
+                try:
+                    rev = loc.connect_locations([common.make_location(x) for x in reversed(case["ls"])], case["wrap"] or None)
+                    out["rev"] = common.location_json(rev)
+                    out["twice"] = common.location_json(loc.connect_locations([res], case["wrap"] or None))
+                except Exception as exc:  # pylint: disable=broad-except
+                    out["meta_err"] = err_kind(exc)
+                return out
             if f == "build":
                 ls = [common.make_location(x) for x in case["ls"]]
                 return {"v": common.location_json(loc.build_location_from_others(ls))}
@@ -253,6 +273,19 @@ class C04(Property):
         if case["f"] in ("connect", "extend", "offset") and "v" in obs:
             line["impl"] = obs["v"]
         return line
+
+    @staticmethod
+    def _same_bases(a: Dict[str, Any], b: Dict[str, Any]) -> bool:
+        def bases(loc: Dict[str, Any]) -> List[List[int]]:
+            ivs = sorted([p[0], p[1]] for p in loc["parts"] if p[0] < p[1])
+            out: List[List[int]] = []
+            for lo, hi in ivs:
+                if out and lo <= out[-1][1]:
+                    out[-1][1] = max(out[-1][1], hi)
+                else:
+                    out.append([lo, hi])
+            return out
+        return bases(a) == bases(b)
 
     @staticmethod
     def _model_value(model: Any) -> Any:
@@ -306,6 +339,9 @@ class C04(Property):
                         spec_ok = spec_ok and oi["len"] == drv["shortest"]
                         tags.append("shortest-applies")
                 nontrivial = len(case["ls"]) > 1
+                if spec_ok and ("meta_err" in obs or not self._same_bases(obs["rev"], v) or not self._same_bases(obs["twice"], v)):
+                    spec_ok = False
+                    detail = f"connect depends on argument order or is not idempotent: {obs}"
             elif f == "extend":
                 oi = drv["on_impl"]
                 if drv["arc"]:
